@@ -2084,6 +2084,8 @@ class Session:
         else:
             bindings = iter([{}])
         where = sel['where']
+        if lock_tables and where is not None:  # txmodel hook: the gap a locking read protects against inserts (phantoms)
+            tm.gap_lock(self, lock_tables, where, scope)
 
         def filtered():
             for b in bindings:
@@ -2423,7 +2425,8 @@ class Session:
                     t.auto_next = new[ac.name] + 1
                 if auto_used is not None and first_auto is None:
                     first_auto = auto_used
-            if tm is not None:  # txmodel hook
+            if tm is not None:  # txmodel hook: insert-intention (waits for other sessions' gap locks), then the new record
+                tm.insert_intention(self, t, new)
                 tm.lock_row(self, tname, key, 'X')
             t.rows[key] = new
             self._log(('ins', tname, key))
